@@ -222,10 +222,13 @@ func (c *compiler) compileLabeledDoWhileStatement(v *ast.DoWhileStatement, needR
 		needResult: needResult,
 	}
 
-	if needResult {
-		c.emit(clearResult) // V = undefined: a body left by break/continue before producing a value must not keep an older one
-	}
 	start := len(c.p.code)
+	if needResult {
+		// at the start of EVERY iteration (as the while and for loops do): a body left by break/continue
+		// through an if/switch/try/labelled block completes with undefined, not with the value of an
+		// earlier iteration or of an earlier statement
+		c.emit(clearResult)
+	}
 	c.compileStatement(v.Body, needResult)
 	c.block.cont = len(c.p.code)
 	c.emitExpr(c.compileExpression(v.Test), true)
